@@ -8,7 +8,7 @@
 // Candidate order at a point (choice 0 is the default, any other choice is one
 // deviation): the current thread if it is enabled and not at a yield point,
 // then the other enabled threads least-recently-run first; a thread at a yield
-// point is only a candidate if no other thread is enabled (fair scheduling).
+// point comes last and only a bounded number of times in a row (fair scheduling).
 #include "e1.hpp"
 #include "VerifHooks.hpp"
 
@@ -54,6 +54,7 @@ struct ThreadState {
   const volatile void *pend_addr = nullptr;
   size_t pend_size = 0;
   long nsync = 0;
+  int self_yields = 0; // consecutive continuations at a yield point while nobody else moved
   uint64_t obs = 1469598103934665603ull; // hash of the values observed so far
   pthread_cond_t cv;
 };
@@ -148,6 +149,7 @@ static uint64_t state_hash() {
     h = mix(h, t->obs);
     h = mix(h, (uint64_t)t->blocking);
     h = mix(h, (uint64_t)t->pend_kind);
+    h = mix(h, (uint64_t)t->self_yields);
   }
   return h;
 }
@@ -169,10 +171,12 @@ static int choose_next(ThreadState *cur) {
     for (auto &o : others)
       cand.push_back(o.second);
   }
-  // fairness: a thread that yields (idle polling, spinning on a busy slot) is
-  // not rescheduled before another enabled thread has taken a step; it only
-  // continues at once if it is the only enabled thread
-  if (cur && enabled(cur) && cur_yielding && cand.empty())
+  // fairness: a thread that yields (idle polling, spinning on a busy slot) may
+  // continue at once only as the last candidate (a deviation) and at most
+  // sched.yield_self_budget times in a row while no other thread moved; it
+  // always continues if it is the only enabled thread
+  if (cur && enabled(cur) && cur_yielding &&
+      (cand.empty() || cur->self_yields < sched.yield_self_budget))
     cand.push_back(cur->id);
   if (cand.empty())
     return -1;
@@ -193,6 +197,15 @@ static int choose_next(ThreadState *cur) {
   rec.choices.push_back(c);
   rec.ncand.push_back((int)cand.size());
   g_last_run[cand[c]] = ++g_clock;
+  // bookkeeping of consecutive self continuations at yield points
+  for (ThreadState *t : g_threads) {
+    if (t->id != cand[c])
+      t->self_yields = 0;
+    else if (cur && t == cur && cur_yielding && cand.size() > 1)
+      ++t->self_yields;
+    else if (!(cur && t == cur))
+      ; // another thread takes over: its own counter is unchanged
+  }
   return cand[c];
 }
 
